@@ -28,8 +28,9 @@ def scripted : Reader where
 
 structure ZState where
   rem : Bytes
-  script : List (Int × Bool)     -- (chunk length | -1 = raises, unconsumed_tail non-empty afterwards)
+  script : List (Int × Bool × Bool)  -- (chunk length | -1 = raises, unconsumed_tail non-empty afterwards, eof afterwards)
   tail : Bool
+  eofNow : Bool
   decAllLen : Int                -- length returned by `decompress(data)` without max_length (-1 = raises)
   flushLen : Int                 -- length returned by `flush()` (-1 = raises)
   eofAfter : Bool                -- `do.eof` after the flush
@@ -40,11 +41,12 @@ def scriptedZ : ZObj where
   dec := fun s _ _ =>
     match s.script with
     | [] => some ([], { s with tail := false })
-    | (k, t) :: r => if k < 0 then none else some (s.rem.take k.toNat, { s with rem := s.rem.drop k.toNat, script := r, tail := t })
+    | (k, t, e) :: r =>
+      if k < 0 then none else some (s.rem.take k.toNat, { s with rem := s.rem.drop k.toNat, script := r, tail := t, eofNow := e })
   decAll := fun s => if s.decAllLen < 0 then none else some (s.rem.take s.decAllLen.toNat, { s with rem := s.rem.drop s.decAllLen.toNat, tail := false })
   hasTail := fun s => s.tail
   flush := fun s => if s.flushLen < 0 then none else some (s.rem.take s.flushLen.toNat, { s with rem := s.rem.drop s.flushLen.toNat, flushed := true })
-  eof := fun s => s.flushed && s.eofAfter
+  eof := fun s => if s.flushed then s.eofAfter else s.eofNow
 
 def optBytes (a : Json) (k : String) : R (Option Bytes) :=
   match fieldOpt a k with
@@ -76,7 +78,7 @@ structure GDesc where
   nonempty : Bool
 
 def GDesc.frame (d : GDesc) : GFrame := ⟨scriptedZ, d.st, d.nonempty⟩
-def GDesc.none : GDesc := ⟨⟨[], [], false, -1, 0, false, false⟩, false⟩
+def GDesc.none : GDesc := ⟨⟨[], [], false, false, -1, 0, false, false⟩, false⟩
 
 def zdesc (a : Json) : R ZDesc := do
   let raw ← optInt a "raw"
@@ -92,13 +94,13 @@ def gdesc (a : Json) : R GDesc := do
     | none => pure []
     | some v => do (← arr v).mapM (fun e => do
         match (← arr e) with
-        | [k, t] => pure ((← int k), (← bool t))
-        | _ => throw "script entry must be [len, tail]")
+        | [k, t, e] => pure ((← int k), (← bool t), (← bool e))
+        | _ => throw "script entry must be [len, tail, eof]")
   let decAllLen := (← optInt a "decall").getD (-1)
   let flushLen := (← optInt a "flush").getD 0
   let eofAfter ← match fieldOpt a "eof" with | none => pure true | some v => bool v
   let ne ← match fieldOpt a "nonempty" with | none => pure true | some v => bool v
-  pure ⟨⟨plain, script, false, decAllLen, flushLen, eofAfter, false⟩, ne⟩
+  pure ⟨⟨plain, script, false, false, decAllLen, flushLen, eofAfter, false⟩, ne⟩
 
 def encOf (a : Json) : R Enc := do
   let n ← rawStr (← field a "enc")
